@@ -366,6 +366,53 @@ def r03_8(chk, tier):
                     break
     chk.require(n >= 60, 'R03.8: only %d read-result comparisons found' % n)
 
+def r03_9(chk, tier):
+    """Views of the current event die with it."""
+    chk.rule('R03.9', 'event views: a local of a view type (basic_string_view, byte_string_view, span) that was read from cursor.current() is not '
+                      'used after the cursor has been advanced (next / read_next / read_to on a cursor): the text of a key or string event '
+                      'lives in the parser buffer and is overwritten by the next event (staj iterators, cursor-to-json builders, decode_traits)', floor=4)
+    facts = F.load(['reflect'], tier)
+    if 'reflect' not in chk.units: chk.units.append('reflect')
+    ADV = ('next', 'read_next', 'read_to')
+    n = 0; seen = set()
+    for fn in facts.functions:
+        if fn.get('body') is None or fn.get('dep') or fn['file'].startswith('drivers/'): continue
+        views = []
+        for d in A.walk_no_lambda(fn['body']):
+            if d.get('k') == 'VarDecl' and d.get('init') is not None and d.get('t'):
+                tn = fn['_types'][d['t'] - 1]
+                if ('string_view' in tn or 'span<' in tn) and not tn.rstrip().endswith('&') and any(A.callee_name(c) == 'current' for c in A.calls_in(d['init'])):
+                    views.append(d)
+        if not views: continue
+        key = (fn['file'], fn['l'])
+        if key in seen: continue
+        seen.add(key)
+        chk.analysed(fn)
+        g = C.CFG(fn['body'])
+        adv = [nd for nd in g.rpo if nd.kind in ('stmt', 'cond', 'return') and isinstance(nd.ast, dict) and
+               any(c.get('k') == 'CXXMemberCallExpr' and A.callee_name(c) in ADV and 'cursor' in (c.get('cq') or '') for c in A.calls_in(nd.ast))]
+        for d in views:
+            n += 1
+            site = U.site(fn, 'view %s' % d.get('n'))
+            dn = g.node_of(d)
+            bad = None
+            if dn is not None:
+                for a in adv:
+                    if a is dn or not g.can_reach(dn, [a]): continue
+                    for nd in g.rpo:
+                        if nd is dn or nd.kind not in ('stmt', 'cond', 'return') or not isinstance(nd.ast, dict): continue
+                        if not any(y.get('k') == 'DeclRefExpr' and y.get('id') == d['id'] for y in A.walk_no_lambda(nd.ast)): continue
+                        # a use strictly after the advance (in the advancing statement itself the view is evaluated first only if it is an argument)
+                        if nd is a: continue
+                        # ... without passing the declaration again (a new iteration reads a fresh view)
+                        if any(s2 is nd or (s2 is not dn and g.can_reach(s2, [nd], avoid=[dn])) for s2 in a.succ): bad = (a, nd); break
+                    if bad: break
+            if bad is None: chk.ok('R03.9', site, {'function': fn['q'], 'line': d.get('l')})
+            else:
+                chk.fail('R03.9', site, fn['file'], bad[1].line or d.get('l'), '%s: the view `%s` read from cursor.current() at line %s is used at line %s after the cursor was '
+                         'advanced at line %s: it points into the parser buffer of an event that is gone' % (fn['n'], d.get('n'), d.get('l'), bad[1].line, bad[0].line), None, fn['q'])
+    chk.require(n >= 4, 'R03.9: only %d event views found' % n)
+
 def run(chk, tier, only_rule=None):
     chk.explanation = EXPLANATION
     chk.not_decided = NOT_DECIDED
@@ -376,5 +423,8 @@ def run(chk, tier, only_rule=None):
     r03_6(chk, tier)
     r03_7(chk, tier)
     r03_8(chk, tier)
+    r03_9(chk, tier)
+    from . import c02
+    c02.r02_8(chk, facts)      # the first-chunk examination must not recur at later chunk boundaries
     from . import c05
     c05.r05_6(chk, tier, units=['core'], floor=60)   # buffer-exhausted tests are what makes chunked delivery safe
